@@ -63,7 +63,7 @@ def _configs(tier):
                     {"name": "SlewDistanceMinimization", "parameters": {}}]
 
     def add(name, n_sens, n_tgt, decision, start=START, steps=n_steps, dparams=None, cfg_over=None, reward=None,
-            far_target=False, events=None, second_engine=None, **net):
+            far_target=False, events=None, second_engine=None, imported_sensors=False, **net):
         tg, ss = _network(n_sens, n_tgt, start, **net)
         if far_target:
             # last target sits 60 deg east: visible to none/one of the sites -> visibility rows differ between targets
@@ -80,6 +80,8 @@ def _configs(tier):
         cfg = scen.config(start, steps + 1, engs, seed=3, events=events(start) if events else None)
         for k, v in (cfg_over or {}).items():
             cfg[k].update(v)
+        if imported_sensors:
+            cfg["_imported_sensors"] = name  # private key of this check (see _build_fn)
         out[name] = (cfg, steps)
 
     add("munkres_2x2", 2, 2, "MunkresDecision")
@@ -139,6 +141,10 @@ def _configs(tier):
     add("munkres_1x2_target_set_changes", 1, 2, "MunkresDecision", steps=4, events=_set_changes)
     add("greedy_2x2_target_set_changes", 2, 2, "MyopicNaiveGreedyDecision", steps=3, events=_set_changes, reward="cost")
     add("munkres_2x2_sensor_set_changes", 2, 2, "MunkresDecision", steps=3, events=_sensor_changes)
+    # the SENSORS follow imported ephemerides (importer database written by a truth-only run of the same network) while
+    # tasking and observation stay real-time: bookkeeping and pointing state must not depend on where truth comes from
+    add("munkres_2x2_sensors_imported", 2, 2, "MunkresDecision", cfg_over={"propagation": {"sensor_realtime_propagation": False}},
+        imported_sensors=True)
     add("munkres_1x2", 1, 2, "MunkresDecision")
     add("munkres_1x1", 1, 1, "MunkresDecision")
     # two tasking engines side by side: each tasks only its own sensors against its own targets
@@ -156,7 +162,42 @@ def _configs(tier):
     return out
 
 
-def _build_fn(cfg):
+_IMPORTERS = {}  # config name -> (scratch dir, importer file) of this process
+
+
+def _importer_for(cfg, n_steps):
+    """Importer database for a configuration whose SENSORS take their truth from imported ephemerides: written by a
+    truth-only run of the same network (real-time propagation) into a scratch file, once per process."""
+    import copy  # noqa: PLC0415
+    import tempfile  # noqa: PLC0415
+
+    key = cfg["_imported_sensors"]
+    if key not in _IMPORTERS:
+        tmp = tempfile.mkdtemp(prefix="verif_c08_")
+        src = copy.deepcopy({k: v for k, v in cfg.items() if not k.startswith("_")})
+        src["propagation"].update(truth_simulation_only=True, sensor_realtime_propagation=True)
+        sc = scen.build(src, db_path=f"{tmp}/importer.sqlite3")
+        for _ in range(n_steps + 1):
+            sc.stepForward()
+            sc.saveDatabaseOutput()
+        scen.fresh()
+        _IMPORTERS[key] = (tmp, f"{tmp}/importer.sqlite3")
+    return _IMPORTERS[key][1]
+
+
+def _drop_importers():
+    import shutil  # noqa: PLC0415
+
+    for tmp, _ in _IMPORTERS.values():
+        shutil.rmtree(tmp, ignore_errors=True)
+    _IMPORTERS.clear()
+
+
+def _build_fn(cfg, n_steps=2):
+    if cfg.get("_imported_sensors"):
+        path = _importer_for(cfg, n_steps)
+        clean = {k: v for k, v in cfg.items() if not k.startswith("_")}
+        return lambda: scen.build(clean, importer_db_path=f"sqlite:///{path}")
     return lambda: scen.build(cfg)
 
 
@@ -339,7 +380,9 @@ def _check_invariants(res, cfg_name, code_label, rec, item):
                     res.case(
                         "bookkeeping/sensor_points_at_tasked_target",
                         {"config": cfg_name, "schedule": code_label, "step": k, "sensor": sid, "targets": slewed},
-                        points and tlt == info["time"],
+                        # (1e-4 s: an agent whose truth is imported carries the epoch of its record, a Julian date with a
+                        # resolution of 4e-5 s; a stale last-tasked time is off by a whole step)
+                        points and abs(tlt - info["time"]) <= 1e-4,
                         signature="C08/bookkeeping/sensor_pointing_wrong",
                         observed={"boresight": bore, "time_last_tasked": tlt},
                         expected={"boresight_one_of": [w for w in want_dirs if w is not None], "time_last_tasked": info["time"]},
@@ -422,7 +465,7 @@ def _run_pairs(res, name, tier, item):
     ordinal = -1
     cfg, n_steps = _configs(tier)[name]
     fakeray.MEMO_ENABLED = True
-    build = _build_fn(cfg)
+    build = _build_fn(cfg, n_steps)
     base = sched.run(build, n_steps, (), per_step=_per_step)
     res.traces += 1
     if base.error:
@@ -487,7 +530,7 @@ def _run_nomemo(res, name, tier, item):
     same worker process (hidden module/class-level state), which memoised replays cannot see."""
     cfg, n_steps = _configs(tier)[name]
     n_steps = min(n_steps, 2)
-    build = _build_fn(cfg)
+    build = _build_fn(cfg, n_steps)
     base_states, err, trace = sched.run_forked(build, n_steps, ())
     res.traces += 1
     if err:
@@ -549,7 +592,7 @@ def run_item(item):
     cfg, n_steps = _configs(tier)[name]
     res = fw.Result()
     fakeray.MEMO_ENABLED = True
-    build = _build_fn(cfg)
+    build = _build_fn(cfg, n_steps)
     base = sched.run(build, n_steps, (), per_step=_per_step)
     res.traces += 1
     if base.error:
@@ -622,6 +665,7 @@ def run_item(item):
             res.observe(ok, pclass)
     res.states += len(seen_states)
     res.extra["memo_hits"] = fakeray.STATS["memo_hits"]
+    _drop_importers()
     return res
 
 
@@ -633,10 +677,10 @@ def finalize(tier, seed, results):
     res = fw.Result()
     for name, (cfg, n_steps) in _configs(tier).items():
         fakeray.MEMO_ENABLED = True
-        a = sched.run(_build_fn(cfg), n_steps, ())
+        a = sched.run(_build_fn(cfg, n_steps), n_steps, ())
         fakeray.MEMO_ENABLED = False
         fakeray.MEMO.clear()
-        b = sched.run(_build_fn(cfg), n_steps, ())
+        b = sched.run(_build_fn(cfg, n_steps), n_steps, ())
         fakeray.MEMO_ENABLED = True
         d = []
         for sa, sb in zip(a.step_states, b.step_states):
